@@ -6,7 +6,7 @@ from lib import *
 from lib import ABORTS
 
 FAMS_QUICK = ["rw", "nest", "plain", "rec", "strictx", "alias"]
-FAMS_C01 = FAMS_QUICK + ["diam"]
+FAMS_C01 = FAMS_QUICK + ["diam", "ttu2", "cyc"]
 
 # tier -> per family TLC constants
 TIERS = {
@@ -329,7 +329,7 @@ def c03(tier):
     binary = build_harness()
     p = TIERS[tier]
     sample = 12 if tier == "quick" else 60
-    defs, groups = oracle(tier, ["rw", "nest", "rec", "plain", "strictx"], ck, sample=sample, ords=1)
+    defs, groups = oracle(tier, ["rw", "nest", "rec", "plain", "strictx", "ttu2"], ck, sample=sample, ords=1)
     dmax = p["dmax"]
     rdepths = [3, dmax] if tier == "quick" else [2, 3, 5, dmax]
     inp = {"defs": defs, "groups": harness_groups(groups), "gdepth": dmax, "rdepths": rdepths, "mode": "fault",
@@ -340,14 +340,15 @@ def c03(tier):
         g = groups[r["g"]]
         if r["q"] >= 0:
             base = r["base"]
-            for kind, s in (("transient", r.get("ft", "")), ("persistent", r.get("fp", "")), ("canceled", r.get("fc", ""))):
+            for kind, s in (("transient", r.get("ft", "")), ("persistent", r.get("fp", "")), ("canceled", r.get("fc", "")),
+                            ("SQL statement, transient", r.get("st", "")), ("SQL statement, persistent", r.get("sp", ""))):
                 for k, c in enumerate(s, 1):
                     ck.evaluations += 1
                     positions += 1
                     cid = dict(case_id(g, r["w"], r["q"], r["d"], defs), fault={"k": k, "kind": kind}, fault_free=base, observed=c, calls=r["n"])
                     if c == "H":
                         continue  # termination under faults is C15's business
-                    if k <= r["n"] and c != base:
+                    if k <= (r.get("sn", 0) if kind.startswith("SQL") else r["n"]) and c != base:
                         ck.nontrivial.add((r["g"], r["q"], r["d"], kind, k))
                     if c == "X":
                         ck.violation("result carries an error and says allowed", cid)
@@ -374,7 +375,8 @@ def c03(tier):
     ck.extra["fault_positions"] = positions
     wide_faults(ck, binary, tier)
     ck.rule = ("for every sampled case the fault-free run is counted (N storage calls), then call k = 1..N+1 fails once, "
-               "persistently, and with context.Canceled; on nodes with more subject sets than one storage statement fetches (1001..3001) every SQL "
+               "persistently, and with context.Canceled; at the deepest request depth the same sweep one layer down, on the SQL statements inside the "
+               "database driver (once, and from the k-th statement on); on nodes with more subject sets than one storage statement fetches (1001..3001) every SQL "
                "statement of the check fails once (Traverse.tla FaultClosed: error or the complete result, never a prefix); non-trivial: the fault changed the outcome")
     ck.assumptions = ["faults are injected at the Manager/Traverser interface the engine uses; inside the SQL driver only for the wide-node cases",
                       "call numbering follows arrival order under the engine's own concurrency"]
@@ -386,7 +388,7 @@ def c15(tier):
     binary = build_harness()
     p = TIERS[tier]
     sample = 10 if tier == "quick" else 50
-    fams = ["rw", "nest", "rec", "plain"]
+    fams = ["rw", "nest", "rec", "plain", "cyc"]
     defs, groups = oracle(tier, fams, ck, sample=sample, ords=1)
     dmax = p["dmax"]
     rdepths = [3, dmax] if tier == "quick" else [2, 4, dmax]
@@ -430,6 +432,8 @@ def c15(tier):
                 ck.sample(cid)
         # the same cancellation through the API handlers, with storage that is slow (4 s) unless its context is done
         for tr, k, ms, status in r.get("tc") or []:
+            if status == "skipped":
+                continue
             ck.evaluations += 1
             transport_cancels[0] += 1
             cid = dict(case_id(g, r["w"], r["q"], r["d"], defs), transport=tr, cancel_before_call=k, elapsed_ms=ms, status=status)
